@@ -210,6 +210,10 @@ pub struct Script {
     /// (Pending, no wake-up), 2 fails with `error_kind` (a reset socket)
     #[serde(default)]
     pub shutdown_behaviour: u8,
+    /// the application waits for events inside a `select!`: its pending `events.next()` future is
+    /// dropped before every script step and a new one created (the receiver is the same)
+    #[serde(default)]
+    pub events_next_cancelled: bool,
 }
 
 pub fn error_kind(k: u8) -> io::ErrorKind {
@@ -224,7 +228,7 @@ impl Script {
     }
 
     pub fn new(steps: Vec<Step>) -> Script {
-        Script { sched_seed: 1, seg: SegPattern::Whole, replies: Vec::new(), steps, max_write: None, picture: None, broken_pipe: true, greeting: None, lazy_events: false, version: None, vectored: false, events_polled_last: false, error_kind: 0, real_ms_per_advance: 0, noise_connection: false, greeting_tail: None, foreign_callers: false, shutdown_behaviour: 0 }
+        Script { sched_seed: 1, seg: SegPattern::Whole, replies: Vec::new(), steps, max_write: None, picture: None, broken_pipe: true, greeting: None, lazy_events: false, version: None, vectored: false, events_polled_last: false, error_kind: 0, real_ms_per_advance: 0, noise_connection: false, greeting_tail: None, foreign_callers: false, shutdown_behaviour: 0, events_next_cancelled: false }
     }
 }
 
@@ -1519,16 +1523,29 @@ async fn drive(script: &Script, connect: Connect) -> Observation {
     let collected: Arc<Mutex<(Vec<Ev>, bool)>> = Arc::new(Mutex::new((Vec::new(), false)));
     let gate = Arc::new(tokio::sync::Notify::new());
     let lazy = script.lazy_events;
+    let ev_tick = Arc::new(tokio::sync::Notify::new());
+    let cancel_next = script.events_next_cancelled;
     let collector = {
         let collected = collected.clone();
         let h = h.clone();
         let gate = gate.clone();
+        let ev_tick = ev_tick.clone();
         tokio::spawn(async move {
             if lazy {
                 gate.notified().await;
             }
             loop {
-                let e = events.next().await;
+                let e = if cancel_next {
+                    loop {
+                        tokio::select! {
+                            biased;
+                            e = events.next() => break e,
+                            _ = ev_tick.notified() => {}
+                        }
+                    }
+                } else {
+                    events.next().await
+                };
                 let mut c = collected.lock().unwrap();
                 h.lock().unwrap().activity += 1;
                 match e {
@@ -1552,6 +1569,7 @@ async fn drive(script: &Script, connect: Connect) -> Observation {
 
     for (si, outer) in script.steps.iter().enumerate() {
         noise_tick.notify_one();
+        ev_tick.notify_one();
         tokio::task::yield_now().await;
         h.lock().unwrap().set_now(start.elapsed().as_millis() as u64);
         let inner: Vec<&Step> = match outer {
